@@ -16,9 +16,9 @@
 (*   molecule per host residue, all its named residues attached once),      *)
 (*   Handed (positions returned to the ligand's own molecule).              *)
 (* I-layer: one named action per step of the code, in the order of          *)
-(*   gen_coords: SplitMolecule(m), ParseLine(i), Finalize, SamplePers,      *)
-(*   SetRestraints, FindStart(i), AnnotateSpec(i), Connect(m), Build,       *)
-(*   SplitLigands.  dev is the set of deviation flags that are switched on: *)
+(*   gen_coords: SplitMolecule(m), ParseLine(i), Finalize, FindStart(i),    *)
+(*   AnnotateSpec(i), Connect(m), Engine, SamplePers, SetRestraints, Build, *)
+(*   SplitLigands, Backmap.  dev is the set of deviation flags that are switched on: *)
 (*   with dev = {} the I-layer is the intended design and TLC proves        *)
 (*   I |= P; with one flag on TLC must refute it.                           *)
 (***************************************************************************)
@@ -221,6 +221,7 @@ Steps(c) ==
   \o (IF \E i \in 1..Len(c.bld) : c.bld[i].k = "dist" THEN << [a |-> "SetRestraints", i |-> 0] >> ELSE <<>>)
   \o << [a |-> "Build", i |-> 0] >>
   \o (IF c.lig = <<>> THEN <<>> ELSE << [a |-> "SplitLigands", i |-> 0] >>)
+  \o << [a |-> "Backmap", i |-> 0] >>
 Done == pc > Len(steps) \/ st.err # ""
 Cur == steps[pc]
 
@@ -332,9 +333,16 @@ Connect(s, c, m) ==
 Engine(s, c) ==
   IF \E i \in 1..NM(c) : \E j \in 1..Len(s.added[i]) : ~Buildable(c, s.added[i][j]) THEN [s EXCEPT !.err = "engine:KeyError"]
   ELSE s
+\* RandomWalk._random_walk starts at the -start residue (node key 0 counts as "not given"), else at the first residue without a
+\* build attribute, else at the first residue, and reads the build attribute of every other residue
+RootOf(s, i) == IF s.startOf[i] >= 2 THEN s.startOf[i]
+                ELSE LET nb == {k \in 1..Len(s.nodes[i]) : ~s.nodes[i][k].build} IN IF nb = {} THEN 1 ELSE MinOf(nb)
 Build(s, c) ==
-  IF \E i \in 1..NM(c) : \E k \in 1..Len(s.nodes[i]) : ~s.nodes[i][k].build THEN [s EXCEPT !.err = "build:KeyError"]
+  IF \E i \in 1..NM(c) : \E k \in 1..Len(s.nodes[i]) : k # RootOf(s, i) /\ ~s.nodes[i][k].build THEN [s EXCEPT !.err = "build:KeyError"]
   ELSE [s EXCEPT !.added = [i \in 1..NM(c) |-> [j \in 1..Len(s.added[i]) |-> [s.added[i][j] EXCEPT !.pos = 100 * i + j]]]]
+\* Backmap reads the backmap attribute of every residue (build and backmap are given and lost together)
+Backmap(s, c) ==
+  IF \E i \in 1..NM(c) : \E k \in 1..Len(s.nodes[i]) : ~s.nodes[i][k].build THEN [s EXCEPT !.err = "backmap:KeyError"] ELSE s
 
 (* ---- AnnotateLigands.split_ligands ---- *)
 SplitLigands(s, c) ==
@@ -354,6 +362,10 @@ Apply(s, c, stp) ==
     [] stp.a = "Engine"        -> Engine(s, c)
     [] stp.a = "Build"         -> Build(s, c)
     [] stp.a = "SplitLigands"  -> SplitLigands(s, c)
+    [] stp.a = "Backmap"       -> Backmap(s, c)
+\* the whole run as one value (used where only the end state matters)
+RECURSIVE RunFrom(_, _, _, _)
+RunFrom(s, c, stps, k) == IF k > Len(stps) \/ s.err # "" THEN s ELSE RunFrom(Apply(s, c, stps[k]), c, stps, k + 1)
 
 InitCase(c) == /\ case = c /\ dev \in DevChoices /\ steps = Steps(c)
                /\ st = Init0(c) /\ pc = 1
@@ -370,8 +382,9 @@ AConnect       == Step("Connect")
 AEngine        == Step("Engine")
 ABuild         == Step("Build")
 ASplitLigands  == Step("SplitLigands")
+ABackmap       == Step("Backmap")
 Next == \/ ASplitMolecule \/ AParseLine \/ AFinalize \/ ASamplePers \/ ASetRestraints
-        \/ AFindStart \/ AAnnotateSpec \/ AConnect \/ AEngine \/ ABuild \/ ASplitLigands
+        \/ AFindStart \/ AAnnotateSpec \/ AConnect \/ AEngine \/ ABuild \/ ASplitLigands \/ ABackmap
 
 (* ------------------------------------------------------------------ *)
 (* I |= P                                                              *)
